@@ -1,4 +1,4 @@
-import Xp.Proofs.C16History
+import Xp.Proofs.C16Interf
 import Xp.Gen.C16
 /-
 C16 — establishing package objects is all-or-nothing and respects the
@@ -413,5 +413,297 @@ example : establish exOk Fault.none exRev11 true ⟨[], 1, []⟩ [{ key := "Comp
        .err .alreadyExists) := by decide
 
 end Examples
+
+/-! ## 7. Third-party interference
+
+Sections 1–4 run Establish alone against the API server. Here another client (the
+garbage collector, an administrator, another controller) writes in between: after
+the validate phase and immediately before each real write of the establish phase
+(`Interf`: arbitrary lists of deletions and of creations / replacements of objects
+with arbitrary owner references), and, for histories, also between reconciles.
+Every theorem below is for ALL stores (`WF`), rejection predicates, fault plans,
+completion orders AND all interference.
+
+`tp.Puts a` — the third party put object `a` during this Establish;
+`PutBy P o'` — `o'` is (up to its resourceVersion) one of the objects in `P`.
+
+Which of the laws above do NOT survive interference — they are false, not merely
+unproved (see the counterexamples at the end of this section):
+ * "nothing is deleted / every old object is still present, with all its owner
+   entries" (`inactive_never_creates` second half, `release_keeps_owner` first half,
+   `history_roles` first clause, `never_collected`): a third party may delete;
+ * `establish_success_covers`: Establish can report success although an object it
+   wrote has been deleted or replaced since;
+ * the exact form "the keys afterwards are the keys before": a third party may add.
+What survives is everything about what THE REVISION writes: an inactive revision
+issues no create and never becomes controller, only an active revision becomes
+controller, the package is a plain owner of whatever the revision wrote, nothing
+at all is written when validation fails. -/
+
+/-- The model of sections 1–4 is the special case "nobody interferes" (so every
+theorem above is a statement about `establishI … Interf.none`). -/
+theorem establishI_no_interference (rejects : Obj → Bool) (fault : Fault) (p : Parent) (control : Bool)
+    (s : Store) (objs : List Desired) (vorder eorder : List Nat) (sys : Sys) (r : Rev) (e : Env)
+    (h : List (Rev × Env)) :
+    establishI rejects fault Interf.none p control s objs vorder eorder =
+      establish rejects fault p control s objs vorder eorder ∧
+    reconcileRevI sys r e Interf.none = reconcileRev sys r e ∧
+    runHistoryI sys (h.map fun x => ⟨[], x.1, x.2, Interf.none⟩) = runHistory sys h :=
+  ⟨establishI_none _ _ _ _ _ _ _ _, reconcileRevI_none _ _ _, runHistoryI_none _ _⟩
+
+/-- **All or nothing, under interference**: with a blocked object (as in
+`all_or_nothing`) Establish fails and the store and the revision's write log are
+exactly what they were — the establish phase, and with it every interleaving with
+it, is never reached. -/
+theorem all_or_nothing_interf (rejects : Obj → Bool) (fault : Fault) (tp : Interf) (p : Parent) (control : Bool)
+    (s : Store) (objs : List Desired) (vorder eorder : List Nat)
+    (j : Nat) (d : Desired) (hd : objs[j]? = some d) (hj : j ∈ vorder)
+    (hb : (control = true ∧ ForeignControlled p s d) ∨
+          (∃ o, submission p control s d = some o ∧ rejects o = true) ∨
+          (control = true ∧ d.needsCA = true ∧ p.tls ≠ .present)) :
+    (establishI rejects fault tp p control s objs vorder eorder).1 = s ∧
+    ∀ refs, (establishI rejects fault tp p control s objs vorder eorder).2 ≠ .ok refs := by
+  have hone : (validateOne rejects fault p control s j d).2.failed := by
+    rcases hb with h | h | ⟨hc, hn, ht⟩
+    · exact validateOne_blocked rejects fault p control s j d (Or.inl h)
+    · exact validateOne_blocked rejects fault p control s j d (Or.inr h)
+    · subst hc; exact validateOne_needsCA rejects fault p s j d hn ht
+  have hs := validateAll_store rejects fault p control s (pick objs vorder)
+  have hf := validateAll_failed rejects fault p control s (pick objs vorder) j d
+    (mem_pick objs vorder j d hd hj) hone
+  unfold establishI
+  split
+  · exact ⟨rfl, fun _ h => by cases h⟩
+  · exact ⟨rfl, fun _ h => by cases h⟩
+  · unfold establishCoreI
+    split <;> rename_i heq <;> rw [heq] at hs hf
+    · exact absurd hf (by simp [R.failed])
+    · exact ⟨hs, fun _ h => by cases h⟩
+    · exact ⟨hs, fun _ h => by cases h⟩
+
+/-- **An inactive revision never creates anything, whoever interferes**: every
+object present after Establish(control = false) has a key that was present before,
+or is an object the third party put; and the revision's own non-dry-run writes
+(the log grows by `new`) are updates only — it does not even attempt a create. -/
+theorem inactive_never_creates_interf (rejects : Obj → Bool) (fault : Fault) (tp : Interf) (p : Parent)
+    (s : Store) (objs : List Desired) (vorder eorder : List Nat) (hw : WF s) :
+    let s' := (establishI rejects fault tp p false s objs vorder eorder).1
+    (∀ o' ∈ s'.objs, (∃ o ∈ s.objs, o.key = o'.key) ∨ PutBy tp.Puts o') ∧
+    (∃ new, s'.log = s.log ++ new ∧ ∀ e ∈ new, e.verb = .update) := by
+  refine ⟨fun o' ho' => ?_, ?_⟩
+  · cases (establishI_inv rejects fault tp p false s objs vorder eorder hw).objs o' ho' with
+    | same h => exact Or.inl ⟨o', h, rfl⟩
+    | rewritten o ho hk _ => exact Or.inl ⟨o, ho, hk⟩
+    | created c => exact absurd c.active (by simp)
+    | third t => exact Or.inr t
+  · obtain ⟨new, he, hn⟩ := establishI_log rejects fault tp p false s objs vorder eorder
+    exact ⟨new, he, fun e h => (hn e h).resolve_right (by simp)⟩
+
+/-- **An inactive revision never becomes controller, whoever interferes**: a
+controller reference (of any uid, the revision's included) on an object after
+Establish(control = false) was on the object of that key before, or the object is
+one the third party put. -/
+theorem inactive_never_controls_interf (rejects : Obj → Bool) (fault : Fault) (tp : Interf) (p : Parent)
+    (s : Store) (objs : List Desired) (vorder eorder : List Nat) (hw : WF s) :
+    ∀ o' ∈ (establishI rejects fault tp p false s objs vorder eorder).1.objs, ∀ u, ctrl o'.owners u →
+      (∃ o ∈ s.objs, o.key = o'.key ∧ ctrl o.owners u) ∨ PutBy tp.Puts o' := by
+  intro o' ho' u hu
+  cases (establishI_inv rejects fault tp p false s objs vorder eorder hw).objs o' ho' with
+  | same h => exact Or.inl ⟨o', h, rfl, hu⟩
+  | rewritten o ho hk q =>
+    rcases q.ctrls u hu with h | ⟨h, _⟩
+    · exact Or.inl ⟨o, ho, hk, h⟩
+    · cases h
+  | created c => exact absurd c.active (by simp)
+  | third t => exact Or.inr t
+
+/-- **An inactive revision is at most a plain owner, whoever interferes**: every
+object after Establish(control = false) is untouched, or the third party's, or an
+old object with the same content, no owner entry dropped, no new controller, and
+the revision present as a plain owner reference. -/
+theorem inactive_plain_owner_interf (rejects : Obj → Bool) (fault : Fault) (tp : Interf) (p : Parent)
+    (s : Store) (objs : List Desired) (vorder eorder : List Nat) (hw : WF s) :
+    ∀ o' ∈ (establishI rejects fault tp p false s objs vorder eorder).1.objs,
+      o' ∈ s.objs ∨ PutBy tp.Puts o' ∨
+      ∃ o ∈ s.objs, o.key = o'.key ∧ o'.body = o.body ∧ asOwner p ∈ o'.owners ∧
+        (∀ u, hasUid o.owners u → hasUid o'.owners u) ∧ (∀ u, ctrl o'.owners u → ctrl o.owners u) := by
+  intro o' ho'
+  cases (establishI_inv rejects fault tp p false s objs vorder eorder hw).objs o' ho' with
+  | same h => exact Or.inl h
+  | rewritten o ho hk q =>
+    refine Or.inr (Or.inr ⟨o, ho, hk, q.body rfl, q.mine, q.uids, fun u hu => ?_⟩)
+    rcases q.ctrls u hu with h | ⟨h, _⟩
+    · exact h
+    · cases h
+  | created c => exact absurd c.active (by simp)
+  | third t => exact Or.inr (Or.inl t)
+
+/-- **Only an active revision becomes controller, whoever interferes** (both roles in
+one statement): a controller reference on an object after Establish was on the
+object of that key before, or the object is one the third party put, or the
+reference is the parent's and the parent is active. -/
+theorem only_active_controls_interf (rejects : Obj → Bool) (fault : Fault) (tp : Interf) (p : Parent) (control : Bool)
+    (s : Store) (objs : List Desired) (vorder eorder : List Nat) (hw : WF s) :
+    ∀ o' ∈ (establishI rejects fault tp p control s objs vorder eorder).1.objs, ∀ u, ctrl o'.owners u →
+      (∃ o ∈ s.objs, o.key = o'.key ∧ ctrl o.owners u) ∨ PutBy tp.Puts o' ∨ (control = true ∧ u = p.uid) := by
+  intro o' ho' u hu
+  cases (establishI_inv rejects fault tp p control s objs vorder eorder hw).objs o' ho' with
+  | same h => exact Or.inl ⟨o', h, rfl, hu⟩
+  | rewritten o ho hk q =>
+    rcases q.ctrls u hu with h | h
+    · exact Or.inl ⟨o, ho, hk, h⟩
+    · exact Or.inr (Or.inr h)
+  | created c => exact Or.inr (Or.inr ⟨c.active, c.ctrls u hu⟩)
+  | third t => exact Or.inr (Or.inl t)
+
+/-- **An active revision controls what it writes, whoever interferes**: every object
+after Establish(control = true) is untouched, or the third party's, or carries the
+parent's controller reference as its only controller. -/
+theorem active_controls_interf (rejects : Obj → Bool) (fault : Fault) (tp : Interf) (p : Parent)
+    (s : Store) (objs : List Desired) (vorder eorder : List Nat) (hw : WF s) :
+    ∀ o' ∈ (establishI rejects fault tp p true s objs vorder eorder).1.objs,
+      o' ∈ s.objs ∨ PutBy tp.Puts o' ∨
+      (asController p ∈ o'.owners ∧ ∀ u, ctrl o'.owners u → u = p.uid) := by
+  intro o' ho'
+  cases (establishI_inv rejects fault tp p true s objs vorder eorder hw).objs o' ho' with
+  | same h => exact Or.inl h
+  | rewritten o ho hk q =>
+    refine Or.inr (Or.inr ⟨q.mine, fun u ⟨r, hr, hu, hc⟩ => ?_⟩)
+    have := ctrl_unique _ r (asController p) q.valid hr q.mine hc rfl
+    rw [← hu, this]; rfl
+  | created c => exact Or.inr (Or.inr ⟨c.mine, c.ctrls⟩)
+  | third t => exact Or.inr (Or.inl t)
+
+/-- **The revision's writes never drop an owner entry, whoever interferes** (the
+master classification, `Origin` in Xp/Proofs/C16Interf.lean): every object after
+Establish is an untouched object of the initial store; or such an object rewritten
+within the role law `QE` (same key, every owner entry kept, no new controller
+except an active parent, content kept by an inactive parent, parent and package
+present, at most one controller); or an object created within `CE` (active parent
+only; controlled by the parent alone); or an object the third party put. The
+resulting store is well formed. -/
+theorem establish_interf_origin (rejects : Obj → Bool) (fault : Fault) (tp : Interf) (p : Parent) (control : Bool)
+    (s : Store) (objs : List Desired) (vorder eorder : List Nat) (hw : WF s) :
+    WF (establishI rejects fault tp p control s objs vorder eorder).1 ∧
+    ∀ o' ∈ (establishI rejects fault tp p control s objs vorder eorder).1.objs, Origin p control tp.Puts s.objs o' :=
+  ⟨(establishI_inv rejects fault tp p control s objs vorder eorder hw).wf,
+   (establishI_inv rejects fault tp p control s objs vorder eorder hw).objs⟩
+
+/-- **The package is a plain owner of whatever the revision wrote, whoever
+interferes**: every object after Establish is untouched, or the third party's, or
+carries the package reference `q` with controller=false. -/
+theorem package_is_plain_owner_interf (rejects : Obj → Bool) (fault : Fault) (tp : Interf) (p : Parent) (control : Bool)
+    (s : Store) (objs : List Desired) (vorder eorder : List Nat) (hw : WF s)
+    (q : ORef) (hq : pkgRef p = some q) (hne : q.uid ≠ p.uid) :
+    ∀ o' ∈ (establishI rejects fault tp p control s objs vorder eorder).1.objs,
+      o' ∈ s.objs ∨ PutBy tp.Puts o' ∨ (q ∈ o'.owners ∧ q.controller = some false) := by
+  intro o' ho'
+  cases (establishI_inv rejects fault tp p control s objs vorder eorder hw).objs o' ho' with
+  | same h => exact Or.inl h
+  | rewritten o ho hk qe => exact Or.inr (Or.inr ⟨qe.pkg q hq hne, pkgRef_controller p q hq⟩)
+  | created c => exact Or.inr (Or.inr ⟨c.pkg q hq hne, pkgRef_controller p q hq⟩)
+  | third t => exact Or.inr (Or.inl t)
+
+/-- **Reconciling an inactive revision under interference** (ReleaseObjects, then
+Establish(control=false) with the third party writing in between): no object
+appears that was not there or put by the third party, and no controller reference
+appears that was not there or written by the third party. -/
+theorem inactive_reconcile_interf (sys : Sys) (r : Rev) (e : Env) (tp : Interf)
+    (hw : WF sys.store) (hr : r.active = false) :
+    ∀ o' ∈ (reconcileRevI sys r e tp).1.store.objs,
+      ((∃ o ∈ sys.store.objs, o.key = o'.key) ∨ (∃ a, tp.Puts a ∧ a.key = o'.key)) ∧
+      ∀ u, ctrl o'.owners u →
+        (∃ o ∈ sys.store.objs, o.key = o'.key ∧ ctrl o.owners u) ∨ (∃ a, tp.Puts a ∧ a.key = o'.key ∧ ctrl a.owners u) := by
+  intro o' ho'
+  have g := ((GInv.init sys.store (fun _ => False) tp.Puts hw).reconcile r e tp
+    (fun ha => by rw [hr] at ha; cases ha) (fun _ h => h)).good o' ho'
+  constructor
+  · rcases g.origin with h | h | ⟨_, hf, _⟩
+    · exact Or.inl h
+    · exact Or.inr h
+    · exact hf.elim
+  · intro u hu
+    rcases g.ctrls u hu with h | hf | h
+    · exact Or.inl h
+    · exact hf.elim
+    · exact Or.inr h
+
+/-- **History corollary under interference** (induction over the history). Any
+sequence of reconciles of any revisions in any roles, under any faults and orders,
+with the third party writing before every reconcile and inside every Establish.
+Comparing the final store with the initial one:
+ * a controller reference at the end was on the object of that key at the start,
+   or belongs to a revision reconciled as *active* in the history, or was written
+   by the third party;
+ * an object at the end has a key present at the start, or a key the third party
+   put, or is owned by a revision that was reconciled as active — inactive
+   revisions never add an object;
+ * the store is still well formed. -/
+theorem history_roles_interf (sys : Sys) (h : List HStep) (hw : WF sys.store) :
+    let s' := (runHistoryI sys h).store
+    WF s' ∧
+    (∀ o' ∈ s'.objs, ∀ u, ctrl o'.owners u →
+        (∃ o ∈ sys.store.objs, o.key = o'.key ∧ ctrl o.owners u) ∨ ActiveInI h u ∨
+        (∃ a, PutsIn h a ∧ a.key = o'.key ∧ ctrl a.owners u)) ∧
+    (∀ o' ∈ s'.objs, (∃ o ∈ sys.store.objs, o.key = o'.key) ∨ (∃ a, PutsIn h a ∧ a.key = o'.key) ∨
+        (∃ u, ActiveInI h u ∧ hasUid o'.owners u)) := by
+  have g := runHistoryI_ginv sys.store.objs (ActiveInI h) (PutsIn h) h sys (fun _ h => h) (fun _ h => h)
+    (GInv.init sys.store _ _ hw)
+  exact ⟨g.wf, fun o' ho' => (g.good o' ho').ctrls, fun o' ho' => (g.good o' ho').origin⟩
+
+/-- **A package never becomes a controller, whoever interferes**: if no revision
+reconciled in the history has the uid `q`, `q` controls nothing initially and the
+third party never writes a controller reference for `q`, then `q` controls nothing
+afterwards. -/
+theorem package_never_controller_interf (sys : Sys) (h : List HStep) (hw : WF sys.store) (q : Nat)
+    (hq : ∀ x ∈ h, x.rev.parent.uid ≠ q) (h0 : ∀ o ∈ sys.store.objs, ¬ ctrl o.owners q)
+    (hp : ∀ a, PutsIn h a → ¬ ctrl a.owners q) :
+    ∀ o' ∈ (runHistoryI sys h).store.objs, ¬ ctrl o'.owners q := by
+  intro o' ho' hc
+  rcases (history_roles_interf sys h hw).2.1 o' ho' q hc with ⟨o, ho, _, hco⟩ | ⟨x, hx, _, hxu⟩ | ⟨a, ha, _, hca⟩
+  · exact h0 o ho hco
+  · exact hq x hx hxu
+  · exact hp a ha hca
+
+section InterfExamples
+
+/-- the third party deletes `Composition/c` right before the real write of object 0 -/
+def exGone : Interf := { pre := fun i => if i = 0 then [.del "Composition/c"] else [] }
+
+/-- **The seeded situation**: revision 11 is inactive and was never active;
+`Composition/c` exists (controlled by revision 10) when it is validated and is
+deleted before the real update. The update fails with NotFound, the revision
+issues no create, the object stays gone — and the law "every old object is still
+present" (`inactive_never_creates`, second half) is indeed false under interference. -/
+example : establishI exOk Fault.none exGone exRev11 false exStore [{ key := "Composition/c", body := 1 }] [0] [0]
+    = (⟨[⟨"Composition/a", 1, [⟨20, some true, some true⟩, ⟨2, some false, some true⟩], 1⟩], 3,
+        [⟨.update, "Composition/c", some .notFound, false⟩]⟩, .err .notFound) := by decide
+
+/-- without the deletion the same call makes revision 11 a plain owner of `c` (the
+statements above are not vacuous: the revision does write) -/
+example : ((establishI exOk Fault.none Interf.none exRev11 false exStore [{ key := "Composition/c", body := 1 }] [0] [0]).1.get "Composition/c").map (·.owners)
+    = some [⟨10, some true, some true⟩, ⟨1, some false, some true⟩, ⟨11, none, none⟩] := by decide
+
+/-- `c` released by revision 10; the active revision 11 establishes `c` and `b` -/
+def exStore2 : Store := ⟨[⟨"Composition/c", 1, [⟨10, some false, some true⟩, ⟨1, some false, some true⟩], 1⟩], 2, []⟩
+
+/-- `establish_success_covers` is false under interference: revision 11 takes `c` over,
+the third party deletes `c` before `b` is created, Establish reports success for
+both objects, and `c` is gone. -/
+example :
+    let r := establishI exOk Fault.none { pre := fun i => if i = 1 then [.del "Composition/c"] else [] }
+      exRev11 true exStore2 [{ key := "Composition/c", body := 9 }, { key := "Composition/b", body := 5 }] [0, 1] [0, 1]
+    r.2 = .ok [⟨"Composition/c", true⟩, ⟨"Composition/b", false⟩] ∧ r.1.get "Composition/c" = none ∧
+    (r.1.get "Composition/b").map (·.owners) = some [⟨11, some true, some true⟩, ⟨1, some false, some true⟩] := by decide
+
+/-- a third party re-creates `c` (now controlled by a foreign owner 90) between the two
+phases: the inactive revision's update carries the resourceVersion it validated and
+is refused with a conflict; the object remains exactly what the third party put. -/
+example : establishI exOk Fault.none { mid := [.put ⟨"Composition/c", 0, [⟨90, some true, none⟩], 4⟩] }
+      exRev11 false exStore2 [{ key := "Composition/c", body := 1 }] [0] [0]
+    = (⟨[⟨"Composition/c", 2, [⟨90, some true, none⟩], 4⟩], 3, [⟨.update, "Composition/c", some .conflict, false⟩]⟩,
+       .err .conflict) := by decide
+
+end InterfExamples
 
 end Xp.C16
